@@ -97,6 +97,7 @@ class Builder:
         self.funcs = []
         self.profile = profile
         self.nconv = 0
+        self.kinds = ["bin", "bin", "bin", "bin", "un", "cast", "cond", "call"]
 
     def new_var(self, t=None, value=None):
         d = self.draw
@@ -178,7 +179,7 @@ class Builder:
         d = self.draw
         if depth <= 0 or d(st.integers(0, 4)) == 0:
             return self.leaf()
-        kind = d(st.sampled_from(["bin", "bin", "bin", "bin", "un", "cast", "cond", "call"]))
+        kind = d(st.sampled_from(self.kinds))
         if kind == "bin":
             a = self.expr(depth - 1)
             b = self.expr(depth - 1)
